@@ -35,7 +35,7 @@ pub struct Plan {
 }
 
 pub const KINDS: &[&str] = &[
-    "tx", "tx", "tx", "tx-2in", "tx-conflict", "tx-conflict-2nd-input", "tx-dup", "stage", "bundle", "bundle", "peer-confirm", "peer-partial", "peer-conflict", "peer-side-conflict", "peer-invalid", "peer-plain", "reorg",
+    "tx", "tx", "tx", "tx-2in", "tx-conflict", "tx-conflict-2nd-input", "tx-dup", "stage", "bundle", "bundle", "peer-confirm", "peer-partial", "peer-conflict", "peer-side-conflict", "peer-invalid", "peer-plain", "reorg", "own-invalid",
 ];
 
 fn gen(seed: u64, tier: Tier) -> Plan {
@@ -59,7 +59,7 @@ impl Scenario for C14 {
     fn meta(&self) -> Meta {
         Meta {
             level: "exploration",
-            rule: "run = one real node (consensus processor, timer-driven bundling, real mempool) preloaded with 2-5 blocks; 4..40/120 operations from {valid payment (half of them routed to the node with a fee, so that they carry routing work), two-input payment, conflicting spend of a pooled input, two-input transaction whose second input conflicts with a pooled one, duplicate, staging tick (moves received transactions into the pool without a block), bundling tick, peer block confirming a pooled transaction, peer block spending one of the two inputs of a pooled transaction, peer block conflicting with a pooled transaction, sibling of the tip (never the longest chain) spending a reserved input, invalid peer block, plain peer block, two-block peer fork that reorganises away the last block}. After every operation: no two pooled transactions share a value-carrying input; every pooled transaction validates against the current ledger; reserved inputs (utxo_map) are exactly the pooled transactions' value-carrying inputs; cached routing work equals the sum over pooled transactions; a bundling tick either produced a block that the node adopted and whose transactions left the pool, or left the pool unchanged; and a fresh valid payment from an unspent output that no pooled transaction spends enters the pool (tried on a scratch basis: the probe transaction is removed again). distinct_nontrivial = distinct op-sequence digests with >= 1 pool/ledger conflict event.",
+            rule: "run = one real node (consensus processor, timer-driven bundling, real mempool) preloaded with 2-5 blocks; 4..40/120 operations from {valid payment (half of them routed to the node with a fee, so that they carry routing work), two-input payment, conflicting spend of a pooled input, two-input transaction whose second input conflicts with a pooled one, duplicate, staging tick (moves received transactions into the pool without a block), bundling tick, peer block confirming a pooled transaction, peer block spending one of the two inputs of a pooled transaction, peer block conflicting with a pooled transaction, sibling of the tip (never the longest chain) spending a reserved input, invalid peer block, plain peer block, two-block peer fork that reorganises away the last block, a block under the node's own key carrying a good payment and a transaction that re-spends an already spent output (refused; the node hands the transactions of a refused own block back to its pool)}. After every operation: no two pooled transactions share a value-carrying input; every pooled transaction validates against the current ledger; reserved inputs (utxo_map) are exactly the pooled transactions' value-carrying inputs; cached routing work equals the sum over pooled transactions; a bundling tick either produced a block that the node adopted and whose transactions left the pool, or left the pool unchanged; and a fresh valid payment from an unspent output that no pooled transaction spends enters the pool (tried on a scratch basis: the probe transaction is removed again). distinct_nontrivial = distinct op-sequence digests with >= 1 pool/ledger conflict event.",
             real: &["Mempool::add_transaction_if_validates/add_transaction/bundle_block/can_bundle_block/delete_transactions", "ConsensusThread::process_event/process_timer_event/bundle_block", "Blockchain::add_blocks_from_mempool/remove_block_transactions/add_block_failure", "Block::create"],
             stubs: &["no network (blocks and transactions are injected at the consensus processor's channel)", "SimClock", "universe builder for peer blocks"],
             assumptions: &["event-granularity scheduling", "the active probe removes its transaction (and reservation) again"],
@@ -239,7 +239,7 @@ impl Scenario for C14 {
                     bundle_expected = true;
                     sim.tick(n, P_CONSENSUS);
                 }
-                k if k.starts_with("peer-") || k == "reorg" => {
+                k if k.starts_with("peer-") || k == "reorg" || k == "own-invalid" => {
                     // a block by another creator (key index 4) on the node's tip (or replacing it)
                     let other_creator = w.params.n_users + 2;
                     let mut r2 = Rng::new(mix(plan.seed, 1000 + oi as u64));
@@ -249,6 +249,22 @@ impl Scenario for C14 {
                     let mut txs: Vec<Transaction> = vec![];
                     let pooled_with_value: Vec<&Transaction> = pool_before.iter().filter(|t| !in_keys(t).is_empty()).collect();
                     match k {
+                        "own-invalid" => {
+                            // a block under the node's own key that it will refuse: a good payment plus a
+                            // transaction re-spending an output the chain has already spent. The node hands the
+                            // transactions of a refused block of its own back to its pool: only the good one may return
+                            let free: Vec<SlipRef> = pledger.unspent_of(&w.keys[2].pk).into_iter().filter(|s| !busy.contains(&s.key())).collect();
+                            let spent_before: Option<SlipRef> = w.path_to(parent).iter().flat_map(|i| w.recs[*i].txs.iter()).filter(|t| t.ttype == TransactionType::Normal).flat_map(|t| t.inputs.iter()).find(|s| s.amount > 0 && !pledger.utxo.contains_key(&s.key())).cloned();
+                            if let (Some(g), Some(sp)) = (free.first(), spent_before) {
+                                if let Some(owner) = w.keys.iter().find(|k| k.pk == sp.pk).cloned() {
+                                    tagc += 1;
+                                    txs.push(make_tx(&w.keys[2].clone(), &[g.clone()], &[(w.keys[2].pk, g.amount)], ts + tagc, &tagc.to_le_bytes()));
+                                    tagc += 1;
+                                    txs.push(make_tx(&owner, &[sp.clone()], &[(owner.pk, sp.amount)], ts + tagc, &tagc.to_le_bytes()));
+                                    r.fault("own_block_with_spent_input_refused", 1);
+                                }
+                            }
+                        }
                         "peer-confirm" => {
                             if let Some(t) = pooled_with_value.first() {
                                 txs.push((*t).clone());
@@ -300,7 +316,8 @@ impl Scenario for C14 {
                     }
                     let _ = &mut r2;
                     let gt = (w.recs[parent].id + 1) % 2 == 0;
-                    let mk = crate::util::guarded(|| build_block(&w.builder, &w.keys, BlockSpec { parent: w.recs[parent].hash, ts, txs: txs.clone(), gt, creator: other_creator }));
+                    let creator = if k == "own-invalid" { 0 } else { other_creator };
+                    let mk = crate::util::guarded(|| build_block(&w.builder, &w.keys, BlockSpec { parent: w.recs[parent].hash, ts, txs: txs.clone(), gt, creator }));
                     if let Ok(Ok(mut b)) = mk {
                         let mut valid = true;
                         if k == "peer-invalid" {
@@ -308,6 +325,9 @@ impl Scenario for C14 {
                             reseal(&mut b, &w.keys[other_creator].clone(), false);
                             valid = false;
                             r.fault("invalid_peer_block", 1);
+                        }
+                        if k == "own-invalid" {
+                            valid = txs.len() < 2;
                         }
                         let i1 = w.register(b, valid, k);
                         let mut blocks = vec![w.recs[i1].bytes.clone()];
